@@ -11,10 +11,12 @@
 #
 # env: REPO (default /repo)   CALIB_DUMP=<dir> keep every .tsh/.bat/model output there
 #      CALIB_KEEP=1 keep the scratch directory   CALIB_RUN=<regexp> restrict the tests run
+#      CALIB_RAW=<file> copy of the test binary's raw output   CALIB_MODEL=<dir> other model sources
 set -u
 HERE="$(cd "$(dirname "${BASH_SOURCE[0]}")" && pwd)"
-MODEL="$(dirname "$HERE")"
-ENGINE="$(dirname "$MODEL")"
+OWN="$(dirname "$HERE")"
+MODEL="${CALIB_MODEL:-$OWN}"   # CALIB_MODEL: calibrate another copy of the model sources (mutant demos)
+ENGINE="$(dirname "$OWN")"
 VROOT="$(dirname "$ENGINE")"
 export GOFLAGS=-mod=mod GOPROXY=off GOSUMDB=off GOTOOLCHAIN=local CGO_ENABLED=0
 export GOCACHE="${GOCACHE:-$VROOT/.cache/go-build}"
